@@ -301,3 +301,22 @@ M("C06", "dsge-mutate-grows", DSGE, "            if genotype.dna[rkey]:\n       
 M("C06", "new-constant-guard", TB, '    if node_to_mutate == 0 or not hasattr(i, "gengy_synthesis_context"):', '    if node_to_mutate == 0 or not hasattr(i, "gengy_synth_context"):', "C06.R4")
 M("C06", "twin-ge-crossover-names", GE, "        c1 = parent1.dna[:rindex] + parent2.dna[rindex:]\n        c2 = parent2.dna[:rindex] + parent1.dna[rindex:]\n        return (Genotype(c1), Genotype(c2))",
   "        first = parent1.dna[:rindex] + parent2.dna[rindex:]\n        second = parent2.dna[:rindex] + parent1.dna[rindex:]\n        return (Genotype(first), Genotype(second))", "", expect="silent")
+
+# ------------------------------------------------------------------------------------- C01
+M("C01", "tuple-generator-again", INI, "        vals = tuple(create_node(global_context, t, context, {}) for t in types)", "        vals = (create_node(global_context, t, context, {}) for t in types)", "C01.R2")
+M("C01", "list-of-map", INI, "        vl: GengyList = GengyList(starting_symbol, nli)", "        vl: GengyList = GengyList(starting_symbol, map(lambda z: z, nli))", "C01.R2")
+M("C01", "create-node-drops-union", INI, "    elif is_union(starting_symbol):", "    elif is_union(starting_symbol) and False:", "C01.R1")
+M("C01", "create-node-tuple-bare", INI, "    elif is_generic_tuple(starting_symbol):", "    elif starting_symbol is tuple:", "C01.R1")
+M("C01", "dsge-bool-raw-gene", DSGE, "        return self.read(bool) % 2 == 0", "        return self.read(bool)", "C01.R3")
+M("C01", "base-random-int-float", INI, "            return self.random.randint(min_int, max_int)", "            return self.random.randint(min_int, max_int) / 1", "C01.R3")
+M("C01", "stack-bool-as-int", STK, "add_to_stacks(stacks, bool, r.random_bool())", "add_to_stacks(stacks, bool, r.randint(0, 1))", "C01.R3")
+M("C01", "chooser-returns-requested-type", INI, "        assert len(alternatives) > 0, \"No alternatives presented\"\n        alternatives = [\n            x for x in alternatives if self.grammar.get_distance_to_terminal(x) <= (self.max_depth - ctx.depth)\n        ]\n        return self.random.choice(alternatives)",
+  "        assert len(alternatives) > 0, \"No alternatives presented\"\n        alternatives = [\n            x for x in alternatives if self.grammar.get_distance_to_terminal(x) <= (self.max_depth - ctx.depth)\n        ]\n        return self.random.choice(alternatives) if alternatives else ty", "C01.R4")
+M("C01", "chooser-from-all-nodes", DSGE, "        return alternatives[v % len(alternatives)]\n\n    def choose_options", "        pool = sorted(self.grammar.all_nodes, key=str)\n        return pool[v % len(pool)]\n\n    def choose_options", "C01.R4")
+M("C01", "field-skipped", INI, "                dependent_values[argn] = arg\n                args.append(arg)\n", "                dependent_values[argn] = arg\n                if arg is not None:\n                    args.append(arg)\n", "C01.R5")
+M("C01", "constructor-other-type", TB, "            v = apply_constructor(type(i), nargs)", "            v = apply_constructor(ty, nargs)", "C01.R5")
+M("C01", "raise-value-error", INI, "            raise GeneticEngineError(\n                f\"Symbol {starting_symbol} not in grammar rules.\",\n            )", "            raise ValueError(\n                f\"Symbol {starting_symbol} not in grammar rules.\",\n            )", "C01.R6")
+M("C01", "stack-uncaught-keyerror", STK, "                    else:\n                        raise IndexError()\n", "                    else:\n                        raise KeyError(argt)\n", "C01.R6")
+M("C01", "twin-tuple-list", INI, "        vals = tuple(create_node(global_context, t, context, {}) for t in types)", "        vals = tuple([create_node(global_context, t, context, {}) for t in types])", "", expect="silent")
+M("C01", "twin-chooser-renamed", INI, "        assert len(alternatives) > 0, \"No alternatives presented\"\n        alternatives = [\n            x for x in alternatives if self.grammar.get_distance_to_terminal(x) <= (self.max_depth - ctx.depth)\n        ]\n        return self.random.choice(alternatives)",
+  "        assert len(alternatives) > 0, \"No alternatives presented\"\n        fitting = [\n            x for x in alternatives if self.grammar.get_distance_to_terminal(x) <= (self.max_depth - ctx.depth)\n        ]\n        return self.random.choice(fitting)", "", expect="silent")
